@@ -395,6 +395,8 @@ class Run:
         self.backend = None
         self.backends: list = []
         self.deco = None
+        self.shared: dict = {}              # decorated functions with a callable ttl, shared by the sections of the run
+        self.calls: dict = {}               # section id -> the scripted body the shared function runs for that call
 
     # ---- log ----------------------------------------------------------------------------------------
     def _mutation(self, op, key, store):
@@ -608,6 +610,35 @@ class Run:
                 if interrupted is not None:
                     raise interrupted
 
+    def shared_function(self, sec: dict, deco_prefix: str, ci: float):
+        """the decorated function (coroutine or async generator) that every section of this run with the same decorator
+        parameters calls; its ttl is a callable of the call's arguments `(k, ticks, sid)` returning the ttl THIS call asks
+        for (form "cb": float seconds, "cbtd": a timedelta, None = no expiry)"""
+        ident = (sec["via"], deco_prefix, sec["wait"], ci, sec["form"])
+        fn = self.shared.get(ident)
+        if fn is None:
+            run = self
+            inner = "td" if sec["form"] == "cbtd" else "f"
+
+            def ttl_of_call(k, ticks, sid, **kwargs):
+                return None if ticks is None else memhist.spell(ticks, inner)
+
+            deco = self.deco(ttl=ttl_of_call, key="K{k}", wait=sec["wait"], check_interval=ci, prefix=deco_prefix)
+            if sec["via"] == "deco":
+                @deco
+                async def fn(k, ticks, sid):
+                    await run.calls[sid]()
+                    return k
+            else:
+                @deco
+                async def fn(k, ticks, sid):
+                    inner_gen = run.calls[sid](k)
+                    async with contextlib.aclosing(inner_gen):
+                        async for chunk in inner_gen:
+                            yield chunk
+            self.shared[ident] = fn
+        return fn
+
     async def run_section(self, sec: dict):
         from cashews.exceptions import LockedError
 
@@ -615,7 +646,10 @@ class Run:
         sid = self.sec_counter
         tok = SEC.set(sid)
         ttl = None if sec["ttl"] is None else sec["ttl"] * TICK
-        if sec["ttl"] is not None and sec.get("form") and (self.cfg["facade"] or sec["via"] != "cm"):
+        callable_form = (sec.get("form") or "").startswith("cb") and sec["via"] in ("deco", "gen")
+        if (sec.get("form") or "").startswith("cb"):
+            pass        # a callable ttl (decorators only, see `shared_function`); anywhere else: plain float seconds
+        elif sec["ttl"] is not None and sec.get("form") and (self.cfg["facade"] or sec["via"] != "cm"):
             # the ttl as the application would write it (timedelta, int, "1m30s", ...): `ttl_to_seconds` lowers it.
             # (`Memory.lock(key, expire)` on a bare backend takes seconds and never converts.)
             ttl = memhist.spell(sec["ttl"], sec["form"])
@@ -652,6 +686,11 @@ class Run:
             if sec["via"] == "cm":
                 async with self.api.lock(key, expire=ttl, wait=sec["wait"], check_interval=ci):
                     await body()
+            elif sec["via"] == "deco" and callable_form:
+                # ONE decorated function per (via, prefix, wait, check_interval, form) of the run, its ttl a callable of
+                # the call's arguments: successive calls of the same function ask for different ttls
+                self.calls[sid] = body
+                await self.shared_function(sec, deco_prefix, ci)(sec["key"], sec["ttl"], sid)
             elif sec["via"] == "deco":
                 @self.deco(ttl=ttl, key="K{k}", wait=sec["wait"], check_interval=ci, prefix=deco_prefix)
                 async def guarded(k):
@@ -675,7 +714,6 @@ class Run:
             elif sec["via"] == "gen":
                 chunks = sec.get("body", [])
 
-                @self.deco(ttl=ttl, key="K{k}", wait=sec["wait"], check_interval=ci, prefix=deco_prefix)
                 async def guarded_gen(k):
                     run.log("body_enter", sec=sid)
                     how = "n"
@@ -703,7 +741,12 @@ class Run:
                     finally:
                         run.log("body_exit", sec=sid, how=how)
 
-                await self.consume(guarded_gen(sec["key"]), sec)
+                if callable_form:
+                    self.calls[sid] = guarded_gen
+                    await self.consume(self.shared_function(sec, deco_prefix, ci)(sec["key"], sec["ttl"], sid), sec)
+                else:
+                    decorated = self.deco(ttl=ttl, key="K{k}", wait=sec["wait"], check_interval=ci, prefix=deco_prefix)(guarded_gen)
+                    await self.consume(decorated(sec["key"]), sec)
             else:
                 raise ValueError(f"unknown via {sec['via']!r}")
         except Livelock:
